@@ -24,6 +24,9 @@ CONTROLS = {
                          ("CancelOnShutdown.mc.cfg", {"Bug": '"submit_cancels_late"'}, "ContractHolds"),
                          ("CancelOnShutdown.mc2.cfg", {"Bug": '"snapshot_live_iteration"'}, "ContractHolds"),
                          ("CancelOnShutdown.mc.cfg", {"AsShipped_D2": "TRUE"}, "NoABBA")],
+    "ExitRegistry": [("ExitRegistry.mc2.cfg", {"Bug": '"flag_after_loop"'}, "ThreadsGone"),
+                     ("ExitRegistry.mc2.cfg", {"Bug": '"rebuild_in_place"'}, "ThreadsGone"),
+                     ("ExitRegistry.mc2.cfg", {"Bug": '"rebuild_unlocked"'}, "Registered")],
     "FutureImpl": [("FutureImpl.mc.cfg", {"Bug": '"append_when_done"'}, "NoCallbackLeft"),
                    ("FutureImpl.mc.cfg", {"Bug": '"keep_callbacks"'}, "NoCallbackLeft"),
                    ("FutureImpl.mc.cfg", {"Bug": '"true_when_done"'}, "ContractHolds"),
